@@ -4,304 +4,1484 @@ By the iterator protocol a producer may rewrite the buffer behind piece N as soo
 `readinto()` / single-scratch-buffer idiom).  `Chunker.lean::seenPieces` therefore takes the bytes of a piece "now" (when it
 was yielded) or "later" (after the next pull) depending on `Gen.adapterCopiesBeforePull`; `C10.chunk_handover_indep` needs `true`.
 
-The flag is computed by a small abstract interpretation of the function body (no text matching): every value obtained from
-the piece iterator (`next(it, …)`, the target of `for … in it`) gets a generation number; a pull increments the current
-generation; any READ (`buffer += x`, `buffer.extend(x)`, `len(x)`, `not x`, passing `x` to a call, yielding `x` from a helper
-generator, …) of a value whose generation is older than the current one is a read-after-pull.  Aliasing (`chunk = next_chunk`)
-and identity tests (`x is None`) are not reads.  Loops are walked twice so loop-carried aliases are seen.  A module-level
-helper generator that receives the iterator (e.g. a look-ahead wrapper) is analysed the same way, its `yield`s being the
-reads.  Anything that hides the iterator from the analysis (unknown callables, attribute stores, …) is "not recognised":
-the flag is emitted `opaque`, so the dependent theorem stops compiling instead of assuming an order.
+The flag is computed by a small ABSTRACT INTERPRETER of the function (class `Engine` below; no text matching, no variable
+names).  It is shared with `11_chunksync.py` (which loads this file by path) for the finality fact and for `chunkify`.
+
+* values: the piece iterator (`src`), pieces with an AGE (= how many pulls of the iterator happened since the piece was
+  obtained; 0 = the newest, the look-ahead), fresh reassembly buffers, symbolic Booleans over the atoms "pull of age a hit the
+  end of the input" / "<pure expression> is None" / "<pure expression> is truthy", constants, sentinels (`object()`), tuples,
+  closures, bound methods, generator objects, pure symbolic expressions (`self.private['chunker_params']`);
+* a state = (environment, what is known about each recent pull, which recent pieces were appended whole to a buffer, facts
+  about symbolic atoms).  Branches FORK the state (conditions are evaluated by their meaning: `not`, `and`/`or`, `is`/`==`
+  with the sentinel, truthiness, conditional expressions, walrus), loops are iterated to a fixpoint over the set of states
+  reaching the loop head (ages saturate, so the set is finite), `break` / `continue` / `return` / `StopIteration` are followed;
+* calls to methods of the class (`self.m`, `cls.m`, `Class.m`, static / class methods, properties), nested functions,
+  lambdas, `functools.partial` objects and module-level functions are INLINED with their arguments (a few levels deep);
+  helper generators are run as coroutines of the `for` loop / `yield from` that consumes them;
+* pulls: `next(it, sentinel)`, `next(it)` / `it.__next__()` under `try … except StopIteration` or
+  `with suppress(StopIteration)`, `for … in it`, `for … in enumerate(it)`, `for … in iter(callable, sentinel)`;
+  comprehensions / generator expressions are run as the anonymous generators they are; `memoryview(piece)` is another
+  handle on the same piece; `operator.is_` / `is_not` / `iadd` mean what the operators mean.
+Not followed (=> not recognised): recursion, helper CLASSES holding the buffer, pieces kept in containers / attributes,
+`match`, `async`, `*args` carrying a piece.
+
+A READ of a piece = anything that looks at its bytes (`buffer += x`, `buffer.extend(x)`, `len(x)`, truthiness, slicing,
+`bytes(x)`, logging it, yielding it to the consumer …); aliasing, identity tests, `isinstance` are not reads.  A read of a
+piece of age > 0 is a read-after-pull.  A piece that is stored in a container / attribute or handed to a callable the
+interpreter cannot see into may be read at any later time: "not recognised" — the flag is emitted `opaque`, so the
+dependent theorem stops compiling instead of assuming an order.
 """
 import ast
+import builtins
+
+AGE_MAX = 3
+UNKNOWN = ('unknown',)
+SELF = ('self',)
+SRC = ('src',)
+MAX_DEPTH = 6
+BUDGET = 400000
+LOG_METHODS = {'debug', 'info', 'warning', 'warn', 'error', 'exception', 'critical', 'log'}
+COPY_CALLS = {'len', 'bytes', 'bytearray', 'bool', 'str', 'repr', 'hash', 'sum', 'min', 'max', 'any', 'all', 'print', 'format', 'int', 'sorted'}
+IDENTITY_CALLS = {'isinstance', 'type', 'id', 'callable'}
 
 
-class _Unrecognised(Exception):
+class Unrecognised(Exception):
     pass
 
 
-class _Flow:
-    def __init__(self, ctx, module, fn, src_param, depth=0):
+_Unrecognised = Unrecognised
+
+
+def const(v):
+    return ('const', v)
+
+
+def vmap(v, f):
+    """apply f to every piece / pcopy / exhaustion atom inside a value"""
+    if not isinstance(v, tuple) or not v:
+        return v
+    if v[0] in ('piece', 'pcopy', 'plen', 'pempty') or (v[0] == 'b' and v[1][0] == 'exh'):
+        return f(v)
+    if v[0] in ('tuple',):
+        return ('tuple', tuple(vmap(x, f) for x in v[1]))
+    if v[0] == 'partial':
+        return ('partial', vmap(v[1], f), tuple(vmap(x, f) for x in v[2]), tuple((k, vmap(x, f)) for k, x in v[3]))
+    if v[0] == 'calliter':
+        return ('calliter', vmap(v[1], f), vmap(v[2], f))
+    if v[0] == 'enum':
+        return v
+    return v
+
+
+def _older(v):
+    if v[0] == 'piece':
+        return ('piece', min(v[1] + 1, AGE_MAX), v[2], v[3])
+    if v[0] in ('pcopy', 'plen', 'pempty'):
+        return (v[0], min(v[1] + 1, AGE_MAX)) + tuple(v[2:])
+    return ('b', ('exh', min(v[1][1] + 1, AGE_MAX)), v[2])
+
+
+def holds(v, kinds):
+    """does the value contain a value of one of the kinds (anywhere inside tuples / partials)"""
+    if not isinstance(v, tuple) or not v:
+        return False
+    if v[0] in kinds:
+        return True
+    if v[0] == 'tuple':
+        return any(holds(x, kinds) for x in v[1])
+    if v[0] == 'partial':
+        return holds(v[1], kinds) or any(holds(x, kinds) for x in v[2]) or any(holds(x, kinds) for _, x in v[3])
+    if v[0] == 'calliter':
+        return holds(v[1], kinds) or holds(v[2], kinds)
+    if v[0] == 'enum':
+        return 'src' in kinds
+    return False
+
+
+class St:
+    """one abstract state (treated as immutable: every change goes through a copy)"""
+    __slots__ = ('env', 'known', 'app', 'atoms')
+
+    def __init__(self, env=None, known=(None,) * (AGE_MAX + 1), app=frozenset(), atoms=()):
+        self.env = env if env is not None else {}
+        self.known = known
+        self.app = app
+        self.atoms = atoms          # sorted tuple of (atom, bool)
+
+    def copy(self):
+        return St(dict(self.env), self.known, self.app, self.atoms)
+
+    def key(self):
+        return (tuple(sorted(self.env.items(), key=lambda kv: kv[0])), self.known, self.app, self.atoms)
+
+    def set(self, k, v):
+        s = self.copy()
+        s.env[k] = v
+        return s
+
+    def drop_frame(self, fid):
+        s = self.copy()
+        for k in [k for k in s.env if k[0] == fid]:
+            del s.env[k]
+        return s
+
+    def with_known(self, age, val):
+        if age >= AGE_MAX:
+            return self
+        k = list(self.known)
+        k[age] = val
+        return St(self.env, tuple(k), self.app, self.atoms)
+
+    def with_app(self, age):
+        if age >= AGE_MAX:
+            return self
+        return St(self.env, self.known, self.app | {age}, self.atoms)
+
+    def atom(self, a):
+        for k, v in self.atoms:
+            if k == a:
+                return v
+        return None
+
+    def with_atom(self, a, val):
+        d = dict(self.atoms)
+        d[a] = val
+        return St(self.env, self.known, self.app, tuple(sorted(d.items())))
+
+    def pulled(self):
+        """the iterator was asked for one more piece: everything obtained so far is one pull older"""
+        env = {k: vmap(v, _older) for k, v in self.env.items()}
+        kn = self.known
+        last = kn[AGE_MAX - 1] if kn[AGE_MAX - 1] == kn[AGE_MAX] else None
+        known = (None,) + tuple(kn[:AGE_MAX - 1]) + (last,)
+        return St(env, known, frozenset(min(a + 1, AGE_MAX) for a in self.app if a + 1 < AGE_MAX), self.atoms)
+
+
+def local_names(fn):
+    """names bound in the scope of `fn` (a FunctionDef / Lambda), Python's rule; (locals, nonlocal-or-global names)"""
+    bound, outer = set(), set()
+    a = fn.args
+    for p in a.posonlyargs + a.args + a.kwonlyargs + ([a.vararg] if a.vararg else []) + ([a.kwarg] if a.kwarg else []):
+        bound.add(p.arg)
+
+    def visit(n, in_comp):
+        if isinstance(n, (ast.FunctionDef, ast.AsyncFunctionDef, ast.ClassDef)):
+            if not in_comp:
+                bound.add(n.name)
+            return
+        if isinstance(n, ast.Lambda):
+            return
+        if isinstance(n, (ast.Global, ast.Nonlocal)):
+            outer.update(n.names)
+            return
+        if isinstance(n, ast.NamedExpr) and isinstance(n.target, ast.Name):
+            bound.add(n.target.id)
+        if isinstance(n, (ast.ListComp, ast.SetComp, ast.DictComp, ast.GeneratorExp)):
+            for ch in ast.iter_child_nodes(n):
+                visit(ch, True)
+            return
+        if isinstance(n, ast.Name) and isinstance(n.ctx, (ast.Store, ast.Del)) and not in_comp:
+            bound.add(n.id)
+        if isinstance(n, (ast.Import, ast.ImportFrom)) and not in_comp:
+            for al in n.names:
+                bound.add((al.asname or al.name).split('.')[0])
+        if isinstance(n, ast.ExceptHandler) and n.name and not in_comp:
+            bound.add(n.name)
+        for ch in ast.iter_child_nodes(n):
+            visit(ch, in_comp)
+    body = fn.body if isinstance(fn.body, list) else [fn.body]
+    for st in body:
+        visit(st, False)
+    return bound - outer, outer
+
+
+def is_generator(fn):
+    if isinstance(fn, ast.Lambda):
+        return False
+
+    def visit(n):
+        if isinstance(n, (ast.Yield, ast.YieldFrom)):
+            return True
+        if isinstance(n, (ast.FunctionDef, ast.AsyncFunctionDef, ast.Lambda, ast.ClassDef)):
+            return False
+        return any(visit(ch) for ch in ast.iter_child_nodes(n))
+    return any(visit(st) for st in fn.body)
+
+
+class Frame:
+    def __init__(self, fid, fn, parent, cls):
+        self.fid = fid
+        self.fn = fn
+        self.parent = parent        # lexically enclosing Frame (closures) or None
+        self.cls = cls              # ClassDef the function is a method of (for `self.x`)
+        self.locals, self.outer = local_names(fn) if fn is not None else (set(), set())
+        self.yield_cbs = []
+
+
+class Engine:
+    """the abstract interpreter; `run_adapter` / `run_plain` are the entry points"""
+
+    def __init__(self, ctx, module, fp_prefix='adapters'):
         self.ctx = ctx
         self.module = module
-        self.fn = fn
-        self.src = {src_param}      # names bound to the piece iterator
-        self.yield_shapes = set()   # (helper generators) which positions of a yielded item carry a piece
-        self.bytearrays = set()     # names bound to a fresh `bytearray(...)` (the reassembly buffer): `.extend(x)` copies x
-        self.gen = {}               # piece-valued name -> generation
-        self.latest = 0
-        self.stale_reads = []       # descriptions of reads-after-pull
+        self.fp_prefix = fp_prefix
+        self.frames = {}
         self.reads = 0
-        self.is_helper = depth > 0
-        self.depth = depth
+        self.pulls = 0
+        self.stale = []             # reads of a piece after a later pull
+        self.cuts = []              # (ok, description) per evaluation of a `.next_cut(buffer, final)` call
+        self.delegated = []         # (state, value) of `yield from <call result>` (chunkify written as a generator)
+        self.stop_sinks = []
+        self.steps = 0
+        self.inlined = {}
+        self.module_cache = {}
+        self.comp_cache = {}
 
-    # ---- events
-    def pull(self):
-        self.latest += 1
-        return self.latest
+    # ------------------------------------------------------------------------------------------- bookkeeping
+    def tick(self, node=None):
+        self.steps += 1
+        if self.steps > BUDGET:
+            raise Unrecognised('analysis budget exceeded')
 
-    def read(self, name, node):
+    def read(self, st, v, node):
         self.reads += 1
-        if self.gen[name] < self.latest:
-            self.stale_reads.append(f'line {getattr(node, "lineno", "?")}: `{name}` read after the following piece was requested')
+        if v[1] > 0:
+            self.stale.append(f'line {getattr(node, "lineno", "?")}: a piece is read after the following piece was requested')
 
-    # ---- expressions
-    def is_src(self, node):
-        if isinstance(node, ast.Name) and node.id in self.src:
-            return True
-        return (isinstance(node, ast.Call) and isinstance(node.func, ast.Name) and node.func.id == 'iter'
-                and len(node.args) == 1 and not node.keywords and self.is_src(node.args[0]))
+    def raise_stop(self, st):
+        if self.stop_sinks:
+            self.stop_sinks[-1].append(st)
+        else:
+            # no visible handler (inside a generator this would be a RuntimeError; a `with suppress(...)` is not followed)
+            raise Unrecognised('StopIteration of the piece iterator is not caught by a visible `try`')
 
-    def value(self, node):
-        """Evaluate `node` where a piece may flow on unchanged (alias position).  Returns a generation, 'src', a tuple, or None."""
-        if isinstance(node, ast.Name):
-            if node.id in self.gen:
-                return self.gen[node.id]
-            if node.id in self.src:
-                return 'src'
+    # ------------------------------------------------------------------------------------------- names
+    def module_value(self, name):
+        if name in self.module_cache:
+            return self.module_cache[name]
+        found = None
+
+        def scan(stmts):
+            nonlocal found
+            for s in stmts:
+                if isinstance(s, (ast.FunctionDef, ast.AsyncFunctionDef)) and s.name == name:
+                    found = ('func', s, None)
+                elif isinstance(s, ast.ClassDef) and s.name == name:
+                    found = ('class', s)
+                elif isinstance(s, ast.Assign) and any(isinstance(t, ast.Name) and t.id == name for t in s.targets):
+                    found = self.static_value(s.value, name)
+                elif isinstance(s, ast.AnnAssign) and isinstance(s.target, ast.Name) and s.target.id == name and s.value is not None:
+                    found = self.static_value(s.value, name)
+                elif isinstance(s, (ast.Import, ast.ImportFrom)):
+                    for al in s.names:
+                        if (al.asname or al.name.split('.')[0]) == name:
+                            found = ('sym', import_path(s, al))
+                elif isinstance(s, (ast.If, ast.Try)):
+                    for part in ('body', 'orelse', 'finalbody'):
+                        scan(getattr(s, part, []))
+        scan(self.module.body)
+        if found is None:
+            found = ('builtin', name) if hasattr(builtins, name) else ('sym', name)
+        self.module_cache[name] = found
+        return found
+
+    def static_value(self, node, name):
+        """value of a module / class level constant"""
+        if isinstance(node, ast.Constant):
+            return const(node.value)
+        if isinstance(node, ast.Call) and isinstance(node.func, ast.Name) and node.func.id == 'object' and not node.args:
+            return ('sentinel', (node.lineno, node.col_offset))
+        if isinstance(node, ast.Name) and node.id != name:
+            return self.module_value(node.id)
+        if isinstance(node, ast.Lambda):
+            return ('func', node, None)
+        return ('sym', name)
+
+    def owner(self, fr, name):
+        """the frame whose variable `name` is, seen from `fr` (None = module level / builtin)"""
+        f = fr
+        first = True
+        while f is not None:
+            if name in f.locals and not (first and name in f.outer):
+                return f
+            first = False
+            f = f.parent
+        return None
+
+    def lookup(self, name, st, fr):
+        f = self.owner(fr, name)
+        if f is not None:
+            return st.env.get((f.fid, name), UNKNOWN)
+        return self.module_value(name)
+
+    def bind_name(self, name, v, st, fr):
+        f = self.owner(fr, name)
+        if f is None:
+            if holds(v, ('piece', 'src', 'genobj')):
+                raise Unrecognised(f'piece / iterator stored in the global `{name}`')
+            return st
+        return st.set((f.fid, name), v)
+
+    def class_attr(self, cls, attr, seen=()):
+        """FunctionDef / constant value of a class attribute, searching the bases defined in the same module"""
+        if cls is None or cls in seen:
             return None
-        if self.is_src(node):
-            return 'src'
-        if isinstance(node, ast.Call) and isinstance(node.func, ast.Name) and node.func.id == 'next' and node.args and self.is_src(node.args[0]):
-            for a in node.args[1:]:
-                self.reads_in(a)
-            return self.pull()
-        if isinstance(node, ast.NamedExpr):
-            v = self.value(node.value)
-            self.bind(node.target, v)
-            return v
-        if isinstance(node, ast.Tuple):
-            return tuple(self.value(e) for e in node.elts)
-        if isinstance(node, ast.IfExp):
-            self.reads_in(node.test)
-            a, b = self.value(node.body), self.value(node.orelse)
-            ints = [x for x in (a, b) if isinstance(x, int)]
-            return min(ints) if ints else (a if a is not None else b)
-        self.reads_in(node)
+        for s in cls.body:
+            if isinstance(s, (ast.FunctionDef, ast.AsyncFunctionDef)) and s.name == attr:
+                decos = {d.id if isinstance(d, ast.Name) else d.attr if isinstance(d, ast.Attribute) else
+                         (d.func.id if isinstance(d, ast.Call) and isinstance(d.func, ast.Name) else '') for d in s.decorator_list}
+                kind = 'static' if 'staticmethod' in decos else 'class' if 'classmethod' in decos else \
+                    'property' if decos & {'property', 'cached_property'} else 'inst'
+                if decos - {'staticmethod', 'classmethod', 'property', 'cached_property'}:
+                    return None
+                return ('method', s, kind, cls)
+            if isinstance(s, ast.Assign) and any(isinstance(t, ast.Name) and t.id == attr for t in s.targets):
+                # a class constant — unless some method stores an attribute of that name (instance state), then the value is not known
+                if any(isinstance(n, ast.Attribute) and n.attr == attr and isinstance(n.ctx, (ast.Store, ast.Del)) for n in ast.walk(self.module)):
+                    return None
+                v = self.static_value(s.value, '')
+                return v if v[0] in ('const', 'sentinel') else None
+            if isinstance(s, ast.AnnAssign) and isinstance(s.target, ast.Name) and s.target.id == attr:
+                return None         # an annotated field (dataclass): the instance value is not the default
+        for b in cls.bases:
+            if isinstance(b, ast.Name):
+                bv = self.module_value(b.id)
+                if bv[0] == 'class':
+                    r = self.class_attr(bv[1], attr, seen + (cls,))
+                    if r is not None:
+                        return r
         return None
 
-    def reads_in(self, node):
-        """Evaluate `node` in a position where a piece reaching it is READ."""
+    # ------------------------------------------------------------------------------------------- Booleans
+    def mk_b(self, st, atom, pol):
+        k = st.known[atom[1]] if atom[0] == 'exh' and atom[1] < AGE_MAX else st.atom(atom) if atom[0] != 'exh' else None
+        if k is not None:
+            return const(k == pol)
+        return ('b', atom, pol)
+
+    def truth(self, v, st, node):
+        """[(state, bool)]: the value tested for truthiness; facts learnt are recorded in the states"""
+        t = v[0]
+        if t == 'const':
+            return [(st, bool(v[1]))]
+        if t == 'b':
+            w = self.mk_b(st, v[1], v[2])
+            if w[0] == 'const':
+                return [(st, w[1])]
+            atom, pol = v[1], v[2]
+            if atom[0] == 'exh':
+                return [(st.with_known(atom[1], True), pol), (st.with_known(atom[1], False), not pol)]
+            return [(st.with_atom(atom, True), pol), (st.with_atom(atom, False), not pol)]
+        if t == 'piece':
+            self.read(st, v, node)
+            age, sent, whole = v[1], v[2], v[3]
+            if sent == 'strict' or st.known[age] is False:
+                # a real piece: empty or not; an empty piece appended or not makes no difference
+                return [(st, True), (st.with_app(age) if whole else st, False)]
+            if st.known[age] is True and sent == 'none':
+                return [(st, False)]
+            if sent == 'none':
+                return [(st.with_known(age, False), True), (st.with_app(age) if whole else st, False)]
+            return [(st, True), (st.with_app(age) if whole else st, False)]
+        if t == 'pempty':
+            return [(st.with_app(v[1]), v[2]), (st, not v[2])]
+        if t == 'plen':
+            # the length of a piece tested: an EMPTY piece appended or not makes no difference (no read: it was read by len())
+            return [(st, True), (st.with_app(v[1]), False)]
+        if t == 'sym':
+            k = st.atom(('truthy', v[1]))
+            if k is not None:
+                return [(st, k)]
+            return [(st.with_atom(('truthy', v[1]), True), True), (st.with_atom(('truthy', v[1]), False), False)]
+        if t == 'tuple':
+            return [(st, bool(v[1]))]
+        if t in ('func', 'method', 'partial', 'class', 'builtin', 'sentinel', 'self', 'genobj', 'src'):
+            return [(st, True)]
+        return [(st, True), (st, False)]
+
+    def cond(self, node, st, fr):
+        self.tick()
+        if isinstance(node, ast.BoolOp):
+            want = isinstance(node.op, ast.And)
+            res, cur = [], [st]
+            for vn in node.values:
+                nxt = []
+                for s in cur:
+                    for s2, t in self.cond(vn, s, fr):
+                        (nxt if t == want else res).append(s2 if t == want else (s2, t))
+                cur = nxt
+            return res + [(s, want) for s in cur]
+        if isinstance(node, ast.UnaryOp) and isinstance(node.op, ast.Not):
+            return [(s, not t) for s, t in self.cond(node.operand, st, fr)]
+        out = []
+        for s, v in self.ev(node, st, fr, True):
+            out += self.truth(v, s, node)
+        return out
+
+    def compare(self, op, a, b, st, node):
+        """value of `a <op> b` for a single comparison"""
+        ident = isinstance(op, (ast.Is, ast.IsNot))
+        eq = isinstance(op, (ast.Eq, ast.NotEq))
+        pos = isinstance(op, (ast.Is, ast.Eq))
+        if ident or eq:
+            for x, y in ((a, b), (b, a)):
+                if x[0] == 'piece':
+                    is_sent = (y == const(None) and x[2] == 'none') or (y[0] == 'sentinel' and x[2] == y)
+                    other_sent = y == const(None) or y[0] == 'sentinel'
+                    if is_sent:
+                        return self.mk_b(st, ('exh', x[1]), pos)
+                    if other_sent and (ident or y == const(None)):
+                        if x[2] == 'strict' or st.known[x[1]] is False:
+                            return const(not pos)
+                        return UNKNOWN
+                    if ident:
+                        if y[0] == 'piece' and y[:3] == x[:3] and y[3] and x[3]:
+                            return const(pos)
+                        return UNKNOWN
+            for x, y in ((a, b), (b, a)):
+                if x[0] == 'b' and y[0] == 'const' and isinstance(y[1], bool):
+                    return self.mk_b(st, x[1], x[2] if y[1] == pos else not x[2])
+            if a[0] == 'const' and b[0] == 'const':
+                same = (a[1] is b[1]) if ident else (a[1] == b[1] and type(a[1]) is type(b[1]))
+                if ident and not (a[1] is None or b[1] is None or isinstance(a[1], bool) or isinstance(b[1], bool)):
+                    return UNKNOWN
+                return const(same == pos)
+            if a[0] == 'sentinel' and b[0] == 'sentinel':
+                return const((a == b) == pos)
+            if {a[0], b[0]} == {'sentinel', 'const'}:
+                return const(not pos)
+            for x, y in ((a, b), (b, a)):
+                if x[0] == 'sym' and y == const(None):
+                    return self.mk_b(st, ('isnone', x[1]), pos)
+        # len(piece) against 0 / 1: "the piece is empty"
+        for x, y, flip in ((a, b, False), (b, a, True)):
+            if x[0] == 'plen' and y[0] == 'const' and type(y[1]) is int:
+                name = type(op).__name__
+                if flip:
+                    name = {'Lt': 'Gt', 'Gt': 'Lt', 'LtE': 'GtE', 'GtE': 'LtE'}.get(name, name)
+                empty_if = {('Eq', 0): True, ('NotEq', 0): False, ('Gt', 0): False, ('LtE', 0): True, ('Lt', 1): True, ('GtE', 1): False}.get((name, y[1]))
+                if empty_if is not None:
+                    return ('pempty', x[1], empty_if)
+        if not ident:
+            self.consume(a, st, node)
+            self.consume(b, st, node)
+        return UNKNOWN
+
+    # ------------------------------------------------------------------------------------------- uses of values
+    def consume(self, v, st, node):
+        """the value is used in a position that looks at it now (and does not keep it)"""
+        t = v[0] if isinstance(v, tuple) and v else None
+        if t == 'piece':
+            self.read(st, v, node)
+        elif t in ('src', 'enum'):
+            raise Unrecognised(f'piece iterator used as a value at line {getattr(node, "lineno", "?")}')
+        elif t == 'genobj':
+            raise Unrecognised(f'generator object used as a value at line {getattr(node, "lineno", "?")}')
+        elif t in ('tuple', 'partial', 'calliter'):
+            if holds(v, ('piece', 'src', 'genobj')):
+                raise Unrecognised(f'piece / iterator inside a compound value used at line {getattr(node, "lineno", "?")}')
+
+    def escape_check(self, v, st, fr, node, what):
+        """the value is handed to something the interpreter cannot see into"""
+        if holds(v, ('piece',)):
+            raise Unrecognised(f'piece passed to `{what}` at line {getattr(node, "lineno", "?")} (may be retained)')
+        if holds(v, ('src', 'genobj')):
+            raise Unrecognised(f'piece iterator passed to `{what}` at line {getattr(node, "lineno", "?")}')
+        if holds(v, ('func',)):
+            self.closure_check(v, st, node, what)
+
+    def closure_check(self, v, st, node, what):
+        if v[0] == 'func':
+            fn, dfid = v[1], v[2]
+            dfr = self.frames.get(dfid)
+            if dfr is None:
+                return
+            for n in ast.walk(fn):
+                if isinstance(n, ast.Name):
+                    f = self.owner(dfr, n.id)
+                    if f is not None and holds(st.env.get((f.fid, n.id), UNKNOWN), ('piece', 'src', 'genobj')):
+                        raise Unrecognised(f'piece / iterator captured by a function passed to `{what}` at line {getattr(node, "lineno", "?")}')
+                if isinstance(n, ast.Attribute) and n.attr == 'next_cut':
+                    raise Unrecognised(f'next_cut inside a function passed to `{what}`')
+        elif v[0] in ('tuple',):
+            for x in v[1]:
+                if isinstance(x, tuple):
+                    self.closure_check(x, st, node, what)
+        elif v[0] == 'partial':
+            self.closure_check(v[1], st, node, what)
+
+    def append(self, st, v, node):
+        """`buffer += v` / `buffer.extend(v)`: the bytes of v are copied into a reassembly buffer now"""
+        if v[0] == 'piece':
+            self.read(st, v, node)
+            return st.with_app(v[1]) if v[3] else st
+        if v[0] == 'pcopy':
+            return st.with_app(v[1])
+        self.consume(v, st, node)
+        return st
+
+    # ------------------------------------------------------------------------------------------- expressions
+    def ev_list(self, nodes, st, fr, alias=True):
+        """[(state, [values])] — the expressions evaluated left to right"""
+        outs = [(st, [])]
+        for n in nodes:
+            nxt = []
+            for s, vs in outs:
+                for s2, v in self.ev(n, s, fr, alias):
+                    nxt.append((s2, vs + [v]))
+            outs = nxt
+        return outs
+
+    def ev(self, node, st, fr, alias=False):
+        """[(state, value)].  alias=True: a piece reaching this position flows on unchanged (no read)."""
+        outs = self.ev_(node, st, fr)
+        if not alias:
+            for s, v in outs:
+                self.consume(v, s, node)
+        return outs
+
+    def ev_(self, node, st, fr):
+        self.tick()
         if node is None:
-            return
+            return [(st, const(None))]
+        if isinstance(node, ast.Constant):
+            return [(st, const(node.value))]
         if isinstance(node, ast.Name):
-            if node.id in self.gen:
-                self.read(node.id, node)
-            elif node.id in self.src:
-                raise _Unrecognised(f'piece iterator `{node.id}` escapes at line {node.lineno}')
-            return
-        if isinstance(node, ast.Compare) and all(isinstance(o, (ast.Is, ast.IsNot)) for o in node.ops):
-            for e in [node.left] + node.comparators:
-                if not (isinstance(e, ast.Name) and e.id in self.gen):
-                    self.reads_in(e)
-            return
-        if isinstance(node, (ast.NamedExpr,)) or self.is_src(node) or (
-                isinstance(node, ast.Call) and isinstance(node.func, ast.Name) and node.func.id == 'next' and node.args and self.is_src(node.args[0])):
-            v = self.value(node)
-            if v == 'src':
-                raise _Unrecognised(f'piece iterator used as a value at line {node.lineno}')
-            return
-        if isinstance(node, (ast.Yield, ast.YieldFrom)):
-            if isinstance(node, ast.YieldFrom) and self.is_src(node.value):
-                raise _Unrecognised('yield from the piece iterator')
-            # what a helper generator yields is what the caller will read (a tuple item such as `(piece, is_last)` included)
-            elts = node.value.elts if isinstance(node.value, ast.Tuple) else [node.value]
-            pos = frozenset(i for i, e in enumerate(elts) if isinstance(e, ast.Name) and e.id in self.gen)
-            self.yield_shapes.add(('tuple', len(elts), pos) if isinstance(node.value, ast.Tuple) else ('item', 1, pos))
-            for e in elts:
-                self.reads_in(e)
-            return
-        if isinstance(node, (ast.List, ast.Tuple, ast.Set, ast.Dict, ast.Starred)):
-            # a piece put into a container can be read at any later time: the order of read and pull is no longer visible here
-            for e in ast.iter_child_nodes(node):
-                if isinstance(e, ast.Name) and e.id in self.gen:
-                    raise _Unrecognised(f'piece `{e.id}` stored in a container at line {node.lineno}')
+            return [(st, self.lookup(node.id, st, fr))]
+        if isinstance(node, ast.NamedExpr):
+            return [(self.bind(node.target, v, s, fr), v) for s, v in self.ev(node.value, st, fr, True)]
+        if isinstance(node, ast.Tuple):
+            if any(isinstance(e, ast.Starred) for e in node.elts):
+                return self.opaque_children(node, st, fr)
+            return [(s, ('tuple', tuple(vs))) for s, vs in self.ev_list(node.elts, st, fr)]
+        if isinstance(node, ast.IfExp):
+            out = []
+            for s, t in self.cond(node.test, st, fr):
+                out += self.ev(node.body if t else node.orelse, s, fr, True)
+            return out
+        if isinstance(node, ast.BoolOp):
+            return self.ev_boolop(node, st, fr)
+        if isinstance(node, ast.UnaryOp):
+            out = []
+            for s, v in self.ev(node.operand, st, fr, True):
+                if isinstance(node.op, ast.Not):
+                    if v[0] == 'b':
+                        out.append((s, self.mk_b(s, v[1], not v[2])))
+                        continue
+                    if v[0] == 'const':
+                        out.append((s, const(not v[1])))
+                        continue
+                    if v[0] == 'sym':
+                        out.append((s, self.mk_b(s, ('truthy', v[1]), False)))
+                        continue
+                    if v[0] == 'pempty':
+                        out.append((s, ('pempty', v[1], not v[2])))
+                        continue
+                self.consume(v, s, node)
+                out.append((s, UNKNOWN))
+            return out
+        if isinstance(node, ast.Compare):
+            if len(node.ops) != 1:
+                return self.opaque_children(node, st, fr)
+            out = []
+            for s, (a, b) in self.ev_list([node.left, node.comparators[0]], st, fr):
+                out.append((s, self.compare(node.ops[0], a, b, s, node)))
+            return out
         if isinstance(node, ast.Call):
-            held = [a for a in list(node.args) + [k.value for k in node.keywords] if isinstance(a, ast.Name) and a.id in self.gen]
-            copies = ((isinstance(node.func, ast.Name) and node.func.id in ('len', 'bool', 'bytes', 'bytearray'))
-                      or (isinstance(node.func, ast.Attribute) and isinstance(node.func.value, ast.Name)
-                          and node.func.value.id in self.bytearrays and node.func.attr in ('extend', '__iadd__')))
-            if held and not copies:
-                # e.g. `pending.append(chunk)`, `memoryview(chunk)`: the callee may keep the object and read it later
-                raise _Unrecognised(f'piece `{held[0].id}` passed to `{self.ctx.unparse(node.func)}` at line {node.lineno} (may be retained)')
-        if isinstance(node, (ast.Lambda, ast.GeneratorExp, ast.ListComp, ast.SetComp, ast.DictComp)):
+            return self.ev_call(node, st, fr)
+        if isinstance(node, ast.Attribute):
+            out = []
+            for s, b in self.ev(node.value, st, fr, True):
+                if node.attr == 'next_cut':
+                    self.consume(b, s, node)
+                    out.append((s, ('attr', UNKNOWN, 'next_cut')))
+                else:
+                    out += self.attribute(b, node.attr, s, fr, node)
+            return out
+        if isinstance(node, ast.Subscript):
+            return self.ev_subscript(node, st, fr)
+        if isinstance(node, ast.BinOp):
+            out = []
+            for s, (a, b) in self.ev_list([node.left, node.right], st, fr):
+                if isinstance(node.op, ast.Add) and a[0] in ('buf', 'unknown') and b[0] in ('piece', 'pcopy'):
+                    out.append((self.append(s, b, node), a))        # `buffer + piece`: a concatenation copies the bytes now
+                    continue
+                self.consume(a, s, node)
+                self.consume(b, s, node)
+                out.append((s, UNKNOWN))
+            return out
+        if isinstance(node, ast.Lambda):
+            return [(st, ('func', node, fr.fid))]
+        if isinstance(node, (ast.Yield,)):
+            out = []
+            for s, v in self.ev(node.value, st, fr, True) if node.value is not None else [(st, const(None))]:
+                for s2 in self.do_yield(s, v, fr, node):
+                    out.append((s2, UNKNOWN))
+            return out
+        if isinstance(node, ast.YieldFrom):
+            out = []
+            for s, v in self.ev(node.value, st, fr, True):
+                if v[0] == 'genobj':
+                    for s2 in self.run_gen(v, s, lambda s3, y, _fr=fr, _n=node: self.do_yield(s3, y, _fr, _n), node):
+                        out.append((s2, UNKNOWN))
+                elif v[0] in ('src', 'enum'):
+                    raise Unrecognised('yield from the piece iterator')
+                elif v[0] == 'tuple':
+                    cur = [s]
+                    for x in v[1]:
+                        cur = [s3 for s2 in cur for s3 in self.do_yield(s2, x, fr, node)]
+                    out += [(s2, UNKNOWN) for s2 in cur]
+                else:
+                    self.consume(v, s, node)
+                    self.delegated.append((s, v))
+                    out.append((s, UNKNOWN))
+            return out
+        if isinstance(node, (ast.JoinedStr, ast.FormattedValue)):
+            return self.opaque_children(node, st, fr)
+        if isinstance(node, (ast.List, ast.Set, ast.Dict)):
+            outs = self.ev_list([c for c in ast.iter_child_nodes(node) if isinstance(c, ast.expr) and not isinstance(c, ast.expr_context)], st, fr)
+            for s, vs in outs:
+                for v in vs:
+                    if holds(v, ('piece', 'src', 'genobj')):
+                        raise Unrecognised(f'piece / iterator stored in a container at line {node.lineno}')
+            return [(s, UNKNOWN) for s, _ in outs]
+        if isinstance(node, (ast.ListComp, ast.SetComp, ast.GeneratorExp)):
+            # a comprehension = an anonymous generator `for … in …: if …: yield elt` (its variables are its own)
+            fn = self.comprehension_function(node)
+            outs = self.call_function(('func', fn, fr.fid), [], {}, st, fr, node)
+            if isinstance(node, ast.GeneratorExp):
+                return outs
+            res = []
+            for s, g in outs:
+                res += [(s2, UNKNOWN) for s2 in self.run_gen(g, s, lambda s3, y, _n=node: self.into_container(s3, y, _n), node)]
+            return res
+        if isinstance(node, ast.DictComp):
             for n in ast.walk(node):
-                if isinstance(n, ast.Name) and (n.id in self.src or n.id in self.gen):
-                    raise _Unrecognised(f'piece / iterator captured by a comprehension or lambda at line {node.lineno}')
-            return
-        if isinstance(node, ast.Call) and any(self.is_src(a) for a in list(node.args) + [k.value for k in node.keywords]):
-            raise _Unrecognised(f'piece iterator passed to `{self.ctx.unparse(node.func)}` at line {node.lineno}')
-        for ch in ast.iter_child_nodes(node):
-            if isinstance(ch, ast.expr):
-                self.reads_in(ch)
-            elif isinstance(ch, (ast.keyword, ast.comprehension, ast.FormattedValue)):
-                self.reads_in(getattr(ch, 'value', None))
+                if isinstance(n, ast.Name) and isinstance(n.ctx, ast.Load):
+                    if holds(self.lookup(n.id, st, fr), ('piece', 'src', 'genobj')):
+                        raise Unrecognised(f'piece / iterator captured by a comprehension at line {node.lineno}')
+                if isinstance(n, ast.Attribute) and n.attr == 'next_cut':
+                    raise Unrecognised('next_cut inside a comprehension')
+            return [(st, UNKNOWN)]
+        if isinstance(node, ast.Starred):
+            return self.opaque_children(node, st, fr)
+        if isinstance(node, ast.Slice):
+            return self.opaque_children(node, st, fr)
+        if isinstance(node, (ast.Await,)):
+            raise Unrecognised(f'expression {type(node).__name__} at line {node.lineno}')
+        return self.opaque_children(node, st, fr)
 
-    def bind(self, target, v):
-        if isinstance(target, ast.Name):
-            self.gen.pop(target.id, None)
-            self.src.discard(target.id) if v != 'src' else None
-            if v == 'src':
-                self.src.add(target.id)
-            elif isinstance(v, int):
-                self.gen[target.id] = v
-            elif isinstance(v, tuple):
-                raise _Unrecognised(f'tuple holding a piece bound to `{target.id}`')
-            return
-        if isinstance(target, (ast.Tuple, ast.List)):
-            if isinstance(v, tuple) and len(v) == len(target.elts):
-                for t, x in zip(target.elts, v):
-                    self.bind(t, x)
-            elif isinstance(v, int):
-                # unpacking a compound item produced by a (clean) helper: every element is as fresh as the item
-                for t in target.elts:
-                    self.bind(t, v)
-            else:
-                for t in target.elts:
-                    self.bind(t, None)
-            return
-        if isinstance(v, int) or v == 'src' or (isinstance(v, tuple) and any(x is not None for x in v)):
-            raise _Unrecognised(f'piece / iterator stored into `{self.ctx.unparse(target)}`')
-        self.reads_in(target)
+    def comprehension_function(self, node):
+        if node in self.comp_cache:
+            return self.comp_cache[node]
+        body = [ast.Expr(value=ast.Yield(value=node.elt))]
+        for gen in reversed(node.generators):
+            if gen.is_async:
+                raise Unrecognised(f'async comprehension at line {node.lineno}')
+            for test in reversed(gen.ifs):
+                body = [ast.If(test=test, body=body, orelse=[])]
+            body = [ast.For(target=gen.target, iter=gen.iter, body=body, orelse=[])]
+        fn = ast.FunctionDef(name='<comprehension>', args=ast.arguments(posonlyargs=[], args=[], vararg=None, kwonlyargs=[], kw_defaults=[],
+                                                                        kwarg=None, defaults=[]), body=body, decorator_list=[], returns=None)
+        ast.copy_location(fn, node)
+        for n in ast.walk(fn):
+            if not hasattr(n, 'lineno'):
+                ast.copy_location(n, node)
+        ast.fix_missing_locations(fn)
+        self.comp_cache[node] = fn
+        return fn
 
-    # ---- statements
-    def loop_source(self, it):
-        """→ 'direct' when `for … in <piece iterator>`, the yield shape when it goes through an analysed helper generator, None otherwise"""
-        if self.is_src(it):
-            return 'direct'
-        if (isinstance(it, ast.Call) and isinstance(it.func, ast.Name) and len(it.args) == 1 and not it.keywords
-                and self.is_src(it.args[0]) and self.depth == 0):
-            helper = next((n for n in self.module.body if isinstance(n, ast.FunctionDef) and n.name == it.func.id), None)
-            if helper is None or len(helper.args.args) != 1 or not any(isinstance(n, (ast.Yield, ast.YieldFrom)) for n in ast.walk(helper)):
-                raise _Unrecognised(f'piece iterator wrapped by `{it.func.id}` (not a module-level generator with one parameter)')
-            sub = _Flow(self.ctx, self.module, helper, helper.args.args[0].arg, depth=1)
-            sub.block(helper.body)
-            self.ctx.fp(f'adapters.{helper.name}', helper)
-            if sub.stale_reads:
-                self.stale_reads += [f'{helper.name}: {x}' for x in sub.stale_reads]
-            if sub.reads == 0:
-                raise _Unrecognised(f'helper `{helper.name}` never hands a piece on')
-            if len(sub.yield_shapes) != 1:
-                raise _Unrecognised(f'helper `{helper.name}` yields items of different shapes')
-            return next(iter(sub.yield_shapes))
-        return None
+    def into_container(self, st, v, node):
+        if holds(v, ('piece', 'src', 'genobj')):
+            raise Unrecognised(f'piece / iterator stored in a container at line {getattr(node, "lineno", "?")}')
+        return [st]
 
-    def block(self, stmts):
-        for s in stmts:
-            self.stmt(s)
+    def drain_gen(self, g, st, node):
+        """a generator object handed to something that consumes it now and looks at every item (sum, any, b''.join, …)"""
+        def on_yield(s, y):
+            self.consume(y, s, node)
+            return [s]
+        return self.run_gen(g, st, on_yield, node)
 
-    def stmt(self, s):
-        if isinstance(s, ast.Assign):
-            v = self.value(s.value)
-            for t in s.targets:
-                if isinstance(t, ast.Name):
-                    if isinstance(s.value, ast.Call) and isinstance(s.value.func, ast.Name) and s.value.func.id == 'bytearray':
-                        self.bytearrays.add(t.id)
+    def opaque_children(self, node, st, fr):
+        """evaluate the sub-expressions for their effects (reads), the result is unknown"""
+        kids = [c for c in ast.iter_child_nodes(node) if isinstance(c, ast.expr)]
+        for c in ast.iter_child_nodes(node):
+            if isinstance(c, (ast.keyword, ast.FormattedValue)) and not isinstance(c, ast.expr):
+                kids.append(c.value)
+        outs = self.ev_list(kids, st, fr, alias=False)
+        return [(s, UNKNOWN) for s, _ in outs]
+
+    def ev_boolop(self, node, st, fr):
+        want = isinstance(node.op, ast.And)
+        res, cur = [], [st]
+        for i, vn in enumerate(node.values):
+            last = i == len(node.values) - 1
+            nxt = []
+            for s in cur:
+                for s2, v in self.ev(vn, s, fr, True):
+                    if last:
+                        res.append((s2, v))
+                        continue
+                    for s3, t in self.truth(v, s2, vn):
+                        if t == want:
+                            nxt.append(s3)
+                        else:
+                            res.append((s3, const(t) if v[0] == 'b' else v))
+            cur = nxt
+        return res
+
+    def attribute(self, b, attr, st, fr, node):
+        if b == SELF or b[0] == 'class':
+            cls = fr_cls(self, fr) if b == SELF else b[1]
+            if b == SELF and attr == '__class__' and cls is not None:
+                return [(st, ('class', cls))]
+            r = self.class_attr(cls, attr)
+            if r is not None and r[0] == 'method':
+                if r[2] == 'property' and b == SELF:
+                    return self.call_function(('func', r[1], None), [SELF], {}, st, fr, node, cls=r[3])
+                return [(st, ('bound', r, b))]
+            if r is not None:
+                return [(st, r)]
+            return [(st, ('sym', ('self' if b == SELF else b[1].name) + '.' + attr))]
+        if b[0] == 'sym':
+            return [(st, ('sym', b[1] + '.' + attr))]
+        if b[0] in ('src', 'buf', 'genobj'):
+            return [(st, ('attr', b, attr))]
+        if b[0] == 'piece':
+            self.read(st, b, node)
+            return [(st, UNKNOWN)]
+        if b[0] == 'callres' or b[0] == 'unknown':
+            return [(st, ('attr', UNKNOWN, attr))]
+        self.consume(b, st, node)
+        return [(st, ('attr', UNKNOWN, attr))]
+
+    def ev_subscript(self, node, st, fr):
+        out = []
+        for s, b in self.ev(node.value, st, fr, True):
+            sl = node.slice
+            if b[0] == 'piece':
+                for s2, _ in self.ev(sl, s, fr, False):
+                    if isinstance(sl, ast.Slice):
+                        out.append((s2, ('piece', b[1], b[2], False)))      # a view / copy of part of the piece
                     else:
-                        self.bytearrays.discard(t.id)
-            for t in s.targets:
-                self.bind(t, v)
-        elif isinstance(s, ast.AnnAssign):
-            if s.value is not None:
-                self.bind(s.target, self.value(s.value))
-        elif isinstance(s, ast.AugAssign):
-            self.reads_in(s.value)
-            if isinstance(s.target, ast.Name) and s.target.id in self.gen:
-                self.read(s.target.id, s.target)
-            elif not isinstance(s.target, ast.Name):
-                self.reads_in(s.target)
-        elif isinstance(s, ast.Expr):
-            self.reads_in(s.value)
-        elif isinstance(s, ast.Return):
-            self.reads_in(s.value)
-        elif isinstance(s, ast.While):
-            for _ in range(2):
-                self.reads_in_test(s.test)
-                self.block(s.body)
-            self.reads_in_test(s.test)
-            self.block(s.orelse)
-        elif isinstance(s, ast.For):
-            kind = self.loop_source(s.iter)
-            if kind is None:
-                self.reads_in(s.iter)
-            for _ in range(2):
-                if kind == 'direct' or (kind is not None and kind[0] == 'item'):
-                    self.bind(s.target, self.pull())
-                elif kind is not None:
-                    # items `(…, piece, …)` of a helper generator: only the positions that carry a piece become pieces
-                    g = self.pull()
-                    if not (isinstance(s.target, (ast.Tuple, ast.List)) and len(s.target.elts) == kind[1]):
-                        raise _Unrecognised('compound item of a helper generator is not unpacked in the `for` target')
-                    self.bind(s.target, tuple(g if i in kind[2] else None for i in range(kind[1])))
+                        self.read(s2, b, node)
+                        out.append((s2, UNKNOWN))
+                continue
+            if b[0] == 'sym' and isinstance(sl, ast.Constant):
+                out.append((s, ('sym', f'{b[1]}[{sl.value!r}]')))
+                continue
+            if b[0] == 'tuple' and isinstance(sl, ast.Constant) and isinstance(sl.value, int) and -len(b[1]) <= sl.value < len(b[1]):
+                out.append((s, b[1][sl.value]))
+                continue
+            self.consume(b, s, node)
+            for s2, _ in self.ev(sl, s, fr, False):
+                out.append((s2, UNKNOWN))
+        return out
+
+    # ------------------------------------------------------------------------------------------- calls
+    def pull(self, st, sent):
+        self.pulls += 1
+        s = st.pulled()
+        if sent == 'strict':
+            ok = s.with_known(0, False)
+            self.raise_stop(s.with_known(0, True))
+            return [(ok, ('piece', 0, 'strict', True))]
+        return [(s, ('piece', 0, sent, True))]
+
+    def sentinel_of(self, v, node):
+        if v == const(None):
+            return 'none'
+        if v[0] == 'sentinel':
+            return v
+        raise Unrecognised(f'default of next() at line {node.lineno} is neither None nor an `object()` sentinel')
+
+    def ev_call(self, node, st, fr):
+        f = node.func
+        if any(isinstance(a, ast.Starred) for a in node.args) or any(k.arg is None for k in node.keywords):
+            outs = self.ev_list([f] + [a.value if isinstance(a, ast.Starred) else a for a in node.args] + [k.value for k in node.keywords], st, fr)
+            for s, vs in outs:
+                for v in vs[1:]:
+                    self.escape_check(v, s, fr, node, self.ctx.unparse(f))
+            return [(s, UNKNOWN) for s, _ in outs]
+        out = []
+        for s0, fv in self.ev(f, st, fr, True):
+            for s, vals in self.ev_list(list(node.args) + [k.value for k in node.keywords], s0, fr):
+                args = vals[:len(node.args)]
+                kwargs = {k.arg: v for k, v in zip(node.keywords, vals[len(node.args):])}
+                out += self.apply(fv, args, kwargs, s, fr, node)
+        return out
+
+    def apply(self, fv, args, kwargs, st, fr, node):
+        self.tick()
+        what = self.ctx.unparse(node.func) if isinstance(node, ast.Call) else '<callable>'
+        t = fv[0]
+        # --- the native chunker
+        if t == 'attr' and fv[2] == 'next_cut':
+            self.cut_site(args, kwargs, st, node)
+            for v in args + list(kwargs.values()):
+                if v[0] != 'buf':
+                    self.consume(v, st, node)
+            return [(st, UNKNOWN)]
+        # --- the iterator protocol
+        if t == 'builtin' and fv[1] == 'next' and args and not kwargs:
+            if args[0][0] == 'src':
+                if len(args) == 1:
+                    return self.pull(st, 'strict')
+                return self.pull(st, self.sentinel_of(args[1], node))
+            if args[0][0] in ('genobj', 'enum'):
+                raise Unrecognised(f'next() on a helper generator at line {node.lineno}')
+        if t == 'attr' and fv[1] == SRC and fv[2] == '__next__' and not args:
+            return self.pull(st, 'strict')
+        if t == 'attr' and fv[1] == SRC and fv[2] == '__iter__' and not args:
+            return [(st, SRC)]
+        if t == 'builtin' and fv[1] == 'iter' and not kwargs:
+            if len(args) == 1:
+                if args[0][0] in ('src', 'genobj', 'sym', 'enum'):
+                    return [(st, args[0])]
+                if args[0][0] == 'tuple':
+                    return [(st, args[0])]
+            if len(args) == 2:
+                return [(st, ('calliter', args[0], args[1]))]
+        if t == 'builtin' and fv[1] == 'enumerate' and args and args[0][0] == 'src':
+            for v in args[1:] + list(kwargs.values()):
+                self.consume(v, st, node)
+            return [(st, ('enum', SRC))]
+        # --- builtins with a known meaning
+        if t == 'builtin':
+            name = fv[1]
+            if name == 'bool' and len(args) == 1 and not kwargs:
+                v = args[0]
+                if v[0] == 'b':
+                    return [(st, v)]
+                if v[0] == 'const':
+                    return [(st, const(bool(v[1])))]
+                if v[0] == 'sym':
+                    return [(st, self.mk_b(st, ('truthy', v[1]), True))]
+                self.consume(v, st, node)
+                return [(st, UNKNOWN)]
+            if name == 'object' and not args:
+                return [(st, ('sentinel', (node.lineno, node.col_offset)))]
+            if name == 'bytearray' and not kwargs and all(v[0] == 'const' for v in args):
+                return [(st, ('buf', (node.lineno, node.col_offset)))]
+            if name in ('bytes', 'bytearray') and len(args) == 1 and args[0][0] == 'piece' and args[0][3]:
+                self.read(st, args[0], node)
+                return [(st, ('pcopy', args[0][1]))]
+            if name == 'type' and args == [SELF] and not kwargs and fr_cls(self, fr) is not None:
+                return [(st, ('class', fr_cls(self, fr)))]
+            if name == 'len' and len(args) == 1 and not kwargs and args[0][0] == 'piece' and args[0][3]:
+                self.read(st, args[0], node)
+                return [(st, ('plen', args[0][1], args[0][2]))]
+            if name in IDENTITY_CALLS:
+                for v in args + list(kwargs.values()):
+                    if v[0] != 'piece':
+                        self.consume(v, st, node)
+                return [(st, UNKNOWN)]
+            if name in COPY_CALLS | {'list', 'tuple', 'set', 'frozenset'} and any(v[0] == 'genobj' for v in args):
+                cur = [st]
+                for v in args + list(kwargs.values()):
+                    if v[0] == 'genobj':
+                        cur = [s2 for s in cur for s2 in (self.drain_gen(v, s, node) if name in COPY_CALLS else
+                                                          self.run_gen(v, s, lambda s3, y: self.into_container(s3, y, node), node))]
+                    else:
+                        for s in cur:
+                            self.consume(v, s, node)
+                return [(s, UNKNOWN) for s in cur]
+            if name in COPY_CALLS:
+                for v in args + list(kwargs.values()):
+                    if holds(v, ('src', 'genobj')) and v[0] != 'piece':
+                        raise Unrecognised(f'piece iterator passed to `{name}` at line {node.lineno}')
+                    self.consume(v, st, node)
+                return [(st, UNKNOWN)]
+            if name == 'partial' or name == 'functools.partial':
+                pass
+            if name == 'memoryview' and len(args) == 1 and not kwargs and args[0][0] == 'piece':
+                return [(st, args[0])]          # another handle on the same bytes: reading it is reading the piece, whenever that happens
+        if t == 'sym' and fv[1].startswith('operator.') and not kwargs:
+            op = fv[1].split('.', 1)[1]
+            if op in ('is_', 'is_not', 'eq', 'ne') and len(args) == 2:
+                cmpop = {'is_': ast.Is, 'is_not': ast.IsNot, 'eq': ast.Eq, 'ne': ast.NotEq}[op]()
+                return [(st, self.compare(cmpop, args[0], args[1], st, node))]
+            if op in ('iadd', 'add', 'concat', 'iconcat') and len(args) == 2 and args[0][0] in ('buf', 'unknown') and args[1][0] in ('piece', 'pcopy'):
+                return [(self.append(st, args[1], node), args[0])]
+            if op in ('not_', 'truth') and len(args) == 1 and args[0][0] in ('b', 'const'):
+                v = args[0]
+                neg = op == 'not_'
+                return [(st, const(bool(v[1]) != neg) if v[0] == 'const' else self.mk_b(st, v[1], v[2] != neg))]
+        if (t == 'sym' and fv[1] in ('partial', 'functools.partial')) and args:
+            return [(st, ('partial', args[0], tuple(args[1:]), tuple(sorted(kwargs.items()))))]
+        # --- inlining
+        if t == 'partial':
+            return self.apply(fv[1], list(fv[2]) + args, {**dict(fv[3]), **kwargs}, st, fr, node)
+        if t == 'func':
+            return self.call_function(fv, args, kwargs, st, fr, node)
+        if t == 'bound':
+            meth, recv = fv[1], fv[2]
+            fn, kind, cls = meth[1], meth[2], meth[3]
+            if kind == 'static':
+                return self.call_function(('func', fn, None), args, kwargs, st, fr, node, cls=cls)
+            if kind == 'class':
+                return self.call_function(('func', fn, None), [('class', cls)] + args, kwargs, st, fr, node, cls=cls)
+            if recv == SELF:
+                return self.call_function(('func', fn, None), [SELF] + args, kwargs, st, fr, node, cls=cls)
+            return self.call_function(('func', fn, None), args, kwargs, st, fr, node, cls=cls)
+        if t == 'class':
+            pass
+        # --- the reassembly buffer
+        if t in ('attr', 'sym') and (fv[2] if t == 'attr' else fv[1].rsplit('.', 1)[-1]) in ('extend', '__iadd__') \
+                and len(args) == 1 and not kwargs and args[0][0] in ('piece', 'pcopy'):
+            return [(self.append(st, args[0], node), UNKNOWN)]      # copies the bytes now, whatever kind of buffer it is
+        if t == 'attr' and fv[1][0] == 'buf':
+            for v in args + list(kwargs.values()):
+                self.consume(v, st, node)
+            return [(st, UNKNOWN)]
+        if isinstance(node, ast.Call) and isinstance(node.func, ast.Attribute) and node.func.attr == 'join' and len(args) == 1 and args[0][0] == 'genobj':
+            return [(s, UNKNOWN) for s in self.drain_gen(args[0], st, node)]
+        # --- logging: formats (reads) its arguments now
+        if isinstance(node, ast.Call) and isinstance(node.func, ast.Attribute) and node.func.attr in LOG_METHODS and t in ('sym', 'attr'):
+            for v in args + list(kwargs.values()):
+                self.consume(v, st, node)
+            return [(st, UNKNOWN)]
+        # --- anything else: not visible
+        for v in args + list(kwargs.values()):
+            self.escape_check(v, st, fr, node, what)
+        if t == 'sym':
+            res = ('callres', fv[1], tuple(args), tuple(sorted(kwargs.items())))
+            return [(st, res if depth_of(res) <= 3 else UNKNOWN)]
+        return [(st, UNKNOWN)]
+
+    def cut_site(self, args, kwargs, st, node):
+        fin = args[1] if len(args) > 1 else kwargs.get('final', const(False))
+        ok, why = False, ''
+        if fin[0] == 'b' and fin[1] == ('exh', 0):
+            ok = fin[2]
+            why = '' if ok else 'the finality flag is the NEGATION of "the look-ahead piece is the end marker"'
+        elif fin[0] == 'const' and isinstance(fin[1], bool):
+            ok = st.known[0] is not None and st.known[0] == fin[1]
+            why = '' if ok else f'finality {fin[1]} is passed where the look-ahead is not known to be {"the end marker" if fin[1] else "a piece"}'
+        elif fin[0] == 'b' and fin[1][0] == 'exh':
+            why = f'finality is decided by a piece obtained {fin[1][1]} pull(s) before the look-ahead'
+        else:
+            why = 'finality is not "the most recently requested piece is the end marker"'
+        if ok and 0 in st.app:
+            ok = False
+            why = 'the most recently requested piece is already in the buffer when next_cut runs (no look-ahead)'
+        elif ok and 1 not in st.app:
+            ok = False
+            why = 'next_cut runs although the piece before the look-ahead was not appended whole to the buffer'
+        self.cuts.append((ok, f'line {node.lineno}: {why}' if why else ''))
+
+    def call_function(self, fv, args, kwargs, st, fr, node, cls=None):
+        fn, dfid = fv[1], fv[2]
+        site = (getattr(node, 'lineno', 0), getattr(node, 'col_offset', 0), getattr(fn, 'lineno', 0))
+        fid = fr.fid + (site,)
+        if len(fid) > MAX_DEPTH or sum(1 for x in fid if x[2] == site[2]) > 2:
+            raise Unrecognised(f'calls nested too deeply / recursion at line {getattr(node, "lineno", "?")}')
+        parent = self.frames.get(dfid) if dfid is not None else None
+        if cls is None and parent is not None:
+            cls = fr_cls(self, parent)
+        new = self.frames.get(fid)
+        if new is None:
+            new = self.frames[fid] = Frame(fid, fn, parent, cls)
+        name = getattr(fn, 'name', '<lambda>')
+        if name not in self.inlined and not isinstance(fn, ast.Lambda) and name != '<comprehension>':
+            self.inlined[name] = fn
+        st = st.drop_frame(fid)
+        # --- bind the parameters
+        a = fn.args
+        pos = a.posonlyargs + a.args
+        if len(args) > len(pos) and a.vararg is None:
+            raise Unrecognised(f'call of `{name}` at line {getattr(node, "lineno", "?")} with too many arguments')
+        defaults = dict(zip([p.arg for p in pos][len(pos) - len(a.defaults):], a.defaults))
+        defaults.update({p.arg: d for p, d in zip(a.kwonlyargs, a.kw_defaults) if d is not None})
+        kwargs = dict(kwargs)
+        for i, p in enumerate(pos + a.kwonlyargs):
+            if i < len(pos) and i < len(args):
+                v = args[i]
+            elif p.arg in kwargs:
+                v = kwargs.pop(p.arg)
+            elif p.arg in defaults:
+                d = defaults[p.arg]
+                v = const(d.value) if isinstance(d, ast.Constant) else UNKNOWN
+            else:
+                v = UNKNOWN
+            st = st.set((fid, p.arg), v)
+        extra = list(args[len(pos):]) + list(kwargs.values())
+        for v in extra:
+            if holds(v, ('piece', 'src', 'genobj')):
+                raise Unrecognised(f'piece / iterator passed through *args / **kwargs of `{name}`')
+        if a.vararg:
+            st = st.set((fid, a.vararg.arg), UNKNOWN)
+        if a.kwarg:
+            st = st.set((fid, a.kwarg.arg), UNKNOWN)
+        if isinstance(fn, ast.Lambda):
+            return [(s.drop_frame(fid), v) for s, v in self.ev(fn.body, st, new, True)]
+        if is_generator(fn):
+            return [(st, ('genobj', fn, fid))]
+        out = []
+        for kind, s, v in self.block(fn.body, st, new):
+            if kind == 'next':
+                out.append((s.drop_frame(fid), const(None)))
+            elif kind == 'return':
+                out.append((s.drop_frame(fid), v))
+            else:
+                raise Unrecognised(f'`{kind}` leaves the function `{name}`')
+        return out
+
+    def run_gen(self, g, st, on_yield, node):
+        """run a helper generator to its end; every value it yields goes to on_yield(state, value) -> [states that resume it]"""
+        fn, fid = g[1], g[2]
+        fr = self.frames[fid]
+        fr.yield_cbs.append(on_yield)
+        try:
+            outs = self.block(fn.body, st, fr)
+        finally:
+            fr.yield_cbs.pop()
+        res = []
+        for kind, s, v in outs:
+            if kind in ('next', 'return'):
+                res.append(s.drop_frame(fid))
+            else:
+                raise Unrecognised(f'`{kind}` leaves the generator `{fn.name}`')
+        return res
+
+    def do_yield(self, st, v, fr, node):
+        if fr.yield_cbs:
+            return fr.yield_cbs[-1](st, v)
+        # the analysed function itself: the value goes to the consumer, who may look at it at any later time
+        if holds(v, ('piece', 'src', 'genobj')):
+            raise Unrecognised(f'a piece / the iterator itself is yielded to the consumer at line {getattr(node, "lineno", "?")} (may be read later)')
+        return [st]
+
+    # ------------------------------------------------------------------------------------------- binding
+    def bind(self, target, v, st, fr):
+        if isinstance(target, ast.Name):
+            return self.bind_name(target.id, v, st, fr)
+        if isinstance(target, (ast.Tuple, ast.List)):
+            if any(isinstance(e, ast.Starred) for e in target.elts):
+                if holds(v, ('piece', 'src', 'genobj')):
+                    raise Unrecognised('piece / iterator unpacked with a starred target')
+                for e in target.elts:
+                    st = self.bind(e.value if isinstance(e, ast.Starred) else e, UNKNOWN, st, fr)
+                return st
+            if v[0] == 'tuple' and len(v[1]) == len(target.elts):
+                for t, x in zip(target.elts, v[1]):
+                    st = self.bind(t, x, st, fr)
+                return st
+            if holds(v, ('piece', 'src', 'genobj')):
+                raise Unrecognised(f'piece / iterator unpacked at line {target.lineno}')
+            for t in target.elts:
+                st = self.bind(t, UNKNOWN, st, fr)
+            return st
+        if isinstance(target, ast.Starred):
+            return self.bind(target.value, UNKNOWN, st, fr)
+        # attribute / subscript store
+        if isinstance(target, ast.Subscript):
+            for s, b in self.ev(target.value, st, fr, True):
+                if b[0] == 'buf' and v[0] in ('piece', 'pcopy'):
+                    # `buffer[len(buffer):] = piece`: copied now
+                    st = self.append(s, ('piece', v[1], v[2], False) if v[0] == 'piece' else v, target)
+                    for s2, _ in self.ev(target.slice, st, fr, False):
+                        st = s2
+                    return st
+        if holds(v, ('piece', 'src', 'genobj')):
+            raise Unrecognised(f'piece / iterator stored into `{self.ctx.unparse(target)}`')
+        for s, _ in self.ev(target.value, st, fr, True):
+            st = s
+        if isinstance(target, ast.Subscript):
+            for s, _ in self.ev(target.slice, st, fr, False):
+                st = s
+        return st
+
+    # ------------------------------------------------------------------------------------------- statements
+    def block(self, stmts, st, fr):
+        """[(kind, state, value)], kind in next / break / continue / return"""
+        cur = [st]
+        out = []
+        for s in stmts:
+            nxt = []
+            seen = set()
+            for c in cur:
+                for kind, s2, v in self.stmt(s, c, fr):
+                    if kind == 'next':
+                        k = s2.key()
+                        if k not in seen:
+                            seen.add(k)
+                            nxt.append(s2)
+                    else:
+                        out.append((kind, s2, v))
+            cur = nxt
+            if not cur:
+                break
+        return out + [('next', c, None) for c in cur]
+
+    def loop(self, heads, step, orelse, fr):
+        """fixpoint over the states reaching the loop head.  step(state) -> (body outcomes [(kind, state, value)], [exit states])"""
+        out = []
+        seen = set()
+        work = list(heads)
+        exits = []
+        while work:
+            h = work.pop()
+            k = h.key()
+            if k in seen:
+                continue
+            seen.add(k)
+            self.tick()
+            body, done = step(h)
+            exits += done
+            for kind, s, v in body:
+                if kind in ('next', 'continue'):
+                    work.append(s)
+                elif kind == 'break':
+                    out.append(('next', s, None))
                 else:
-                    self.bind(s.target, None)
-                self.block(s.body)
-            if kind is not None:
-                self.pull()             # the pull answered by StopIteration
-            self.block(s.orelse)
-        elif isinstance(s, ast.If):
-            self.reads_in_test(s.test)
-            self.block(s.body)
-            self.block(s.orelse)
-        elif isinstance(s, ast.Try):
-            self.block(s.body)
-            for h in s.handlers:
-                self.block(h.body)
-            self.block(s.orelse)
-            self.block(s.finalbody)
-        elif isinstance(s, ast.With):
+                    out.append((kind, s, v))
+        dd = set()
+        for e in exits:
+            if e.key() in dd:
+                continue
+            dd.add(e.key())
+            out += self.block(orelse, e, fr) if orelse else [('next', e, None)]
+        return out
+
+    def stmt(self, s, st, fr):
+        self.tick(s)
+        N = lambda states: [('next', x, None) for x in states]  # noqa: E731
+        if isinstance(s, ast.Expr):
+            return N([s2 for s2, _ in self.ev(s.value, st, fr, isinstance(s.value, (ast.Yield, ast.YieldFrom, ast.Call, ast.NamedExpr)))])
+        if isinstance(s, ast.Assign):
+            out = []
+            for s2, v in self.ev(s.value, st, fr, True):
+                for t in s.targets:
+                    s2 = self.bind(t, v, s2, fr)
+                out.append(s2)
+            return N(out)
+        if isinstance(s, ast.AnnAssign):
+            if s.value is None:
+                return N([st])
+            return N([self.bind(s.target, v, s2, fr) for s2, v in self.ev(s.value, st, fr, True)])
+        if isinstance(s, ast.AugAssign):
+            out = []
+            for s2, v in self.ev(s.value, st, fr, True):
+                if isinstance(s.target, ast.Name):
+                    cur = self.lookup(s.target.id, s2, fr)
+                    if isinstance(s.op, ast.Add) and (cur[0] == 'buf' or (v[0] in ('piece', 'pcopy') and cur[0] in ('unknown', 'sym'))):
+                        # `buffer += piece`: the bytes are copied now, whatever kind of buffer it is
+                        out.append(self.append(s2, v, s))
+                        continue
+                    self.consume(v, s2, s)
+                    self.consume(cur, s2, s)
+                    out.append(self.bind_name(s.target.id, UNKNOWN, s2, fr))
+                else:
+                    hit = False
+                    for s3, b in self.ev(s.target, s2, fr, True):
+                        if b[0] == 'buf' and isinstance(s.op, ast.Add):
+                            out.append(self.append(s3, v, s))
+                        else:
+                            self.consume(v, s3, s)
+                            self.consume(b, s3, s)
+                            out.append(s3)
+                        hit = True
+                    if not hit:
+                        out.append(s2)
+            return N(out)
+        if isinstance(s, ast.Return):
+            return [('return', s2, v) for s2, v in self.ev(s.value, st, fr, True)]
+        if isinstance(s, ast.If):
+            out = []
+            for s2, t in self.cond(s.test, st, fr):
+                out += self.block(s.body if t else s.orelse, s2, fr)
+            return out
+        if isinstance(s, ast.While):
+            def step(h):
+                body, done = [], []
+                for s2, t in self.cond(s.test, h, fr):
+                    if t:
+                        body += self.block(s.body, s2, fr)
+                    else:
+                        done.append(s2)
+                return body, done
+            return self.loop([st], step, s.orelse, fr)
+        if isinstance(s, ast.For):
+            return self.for_stmt(s, st, fr)
+        if isinstance(s, ast.Try):
+            return self.try_stmt(s, st, fr)
+        if isinstance(s, ast.With) and len(s.items) == 1 and isinstance(s.items[0].context_expr, ast.Call) \
+                and self.ctx.unparse(s.items[0].context_expr.func).split('.')[-1] == 'suppress' \
+                and any(isinstance(n, ast.Name) and n.id in ('StopIteration', 'Exception', 'BaseException') for a in s.items[0].context_expr.args for n in ast.walk(a)):
+            # `with suppress(StopIteration): …` = `try: … except StopIteration: pass`
+            handler = ast.ExceptHandler(type=ast.Name(id='StopIteration', ctx=ast.Load()), name=None, body=[ast.Pass()])
+            t = ast.Try(body=s.body, handlers=[handler], orelse=[], finalbody=[])
+            ast.copy_location(t, s)
+            ast.fix_missing_locations(t)
+            return self.try_stmt(t, st, fr)
+        if isinstance(s, ast.With):
+            cur = [st]
             for it in s.items:
-                self.reads_in(it.context_expr)
-            self.block(s.body)
-        elif isinstance(s, (ast.Delete,)):
+                nxt = []
+                for c in cur:
+                    for s2, v in self.ev(it.context_expr, c, fr, True):
+                        if v[0] != 'piece':
+                            self.consume(v, s2, s)
+                            v = UNKNOWN
+                        nxt.append(self.bind(it.optional_vars, v, s2, fr) if it.optional_vars is not None else s2)
+                cur = nxt
+            out = []
+            for c in cur:
+                out += self.block(s.body, c, fr)
+            return out
+        if isinstance(s, ast.Delete):
+            cur = st
             for t in s.targets:
                 if isinstance(t, ast.Name):
-                    self.gen.pop(t.id, None)
+                    f = self.owner(fr, t.id)
+                    if f is not None and (f.fid, t.id) in cur.env:
+                        cur = cur.copy()
+                        del cur.env[(f.fid, t.id)]
                 else:
-                    self.reads_in(t)
-        elif isinstance(s, (ast.Pass, ast.Break, ast.Continue, ast.Import, ast.ImportFrom, ast.Global, ast.Nonlocal)):
-            pass
-        elif isinstance(s, (ast.FunctionDef, ast.AsyncFunctionDef, ast.ClassDef)):
+                    for s2, _ in self.ev(t.value, cur, fr, True):
+                        cur = s2
+                    if isinstance(t, ast.Subscript):
+                        for s2, _ in self.ev(t.slice, cur, fr, False):
+                            cur = s2
+            return N([cur])
+        if isinstance(s, (ast.Pass, ast.Global, ast.Nonlocal)):
+            return N([st])
+        if isinstance(s, (ast.Import, ast.ImportFrom)):
+            for al in s.names:
+                nm = (al.asname or al.name).split('.')[0]
+                st = self.bind_name(nm, ('sym', import_path(s, al)), st, fr)
+            return N([st])
+        if isinstance(s, ast.Break):
+            return [('break', st, None)]
+        if isinstance(s, ast.Continue):
+            return [('continue', st, None)]
+        if isinstance(s, (ast.FunctionDef, ast.AsyncFunctionDef)):
+            if isinstance(s, ast.AsyncFunctionDef) or s.decorator_list:
+                for n in ast.walk(s):
+                    if isinstance(n, ast.Name) and holds(self.lookup(n.id, st, fr), ('piece', 'src', 'genobj')):
+                        raise Unrecognised(f'piece / iterator captured by nested `{s.name}`')
+                return N([self.bind_name(s.name, UNKNOWN, st, fr)])
+            return N([self.bind_name(s.name, ('func', s, fr.fid), st, fr)])
+        if isinstance(s, ast.ClassDef):
             for n in ast.walk(s):
-                if isinstance(n, ast.Name) and (n.id in self.src or n.id in self.gen):
-                    raise _Unrecognised(f'piece / iterator captured by nested `{s.name}`')
-        elif isinstance(s, (ast.Raise, ast.Assert)):
+                if isinstance(n, ast.Name) and holds(self.lookup(n.id, st, fr), ('piece', 'src', 'genobj')):
+                    raise Unrecognised(f'piece / iterator captured by nested `{s.name}`')
+            return N([self.bind_name(s.name, UNKNOWN, st, fr)])
+        if isinstance(s, ast.Assert):
+            out = [s2 for s2, t in self.cond(s.test, st, fr) if t]
+            return N(out)
+        if isinstance(s, ast.Raise):
             for ch in ast.iter_child_nodes(s):
                 if isinstance(ch, ast.expr):
-                    self.reads_in(ch)
-        else:
-            raise _Unrecognised(f'statement {type(s).__name__} at line {s.lineno}')
+                    self.ev(ch, st, fr, False)
+            if s.exc is not None and 'StopIteration' in self.ctx.unparse(s.exc):
+                self.raise_stop(st)
+            return []
+        raise Unrecognised(f'statement {type(s).__name__} at line {s.lineno}')
 
-    def reads_in_test(self, test):
-        # `while (chunk := next(it, None)) is not None`, `while chunk is not None`, `while chunk:` (the last one reads the piece)
-        self.reads_in(test)
+    def for_stmt(self, s, st, fr):
+        out = []
+        for s0, itv in self.ev(s.iter, st, fr, True):
+            t = itv[0]
+            if t in ('src', 'enum'):
+                def step(h, _t=t):
+                    self.pulls += 1
+                    p = h.pulled()
+                    piece = ('piece', 0, 'strict', True)
+                    b = self.bind(s.target, piece if _t == 'src' else ('tuple', (UNKNOWN, piece)), p.with_known(0, False), fr)
+                    return self.block(s.body, b, fr), [p.with_known(0, True)]
+                out += self.loop([s0], step, s.orelse, fr)
+            elif t == 'genobj':
+                leaving = []
+
+                def on_yield(s1, y):
+                    resume = []
+                    for kind, s2, v in self.block(s.body, self.bind(s.target, y, s1, fr), fr):
+                        if kind in ('next', 'continue'):
+                            resume.append(s2)
+                        elif kind == 'break':
+                            leaving.append(('next', s2.drop_frame(itv[2]), None))
+                        else:
+                            leaving.append((kind, s2.drop_frame(itv[2]), v))
+                    return resume
+                for s1 in self.run_gen(itv, s0, on_yield, s):
+                    out += self.block(s.orelse, s1, fr) if s.orelse else [('next', s1, None)]
+                out += leaving
+            elif t == 'calliter':
+                call, sent = itv[1], itv[2]
+
+                def step(h):
+                    body, done = [], []
+                    for s1, v in self.apply(call, [], {}, h, fr, s.iter):
+                        eqv = self.compare(ast.Eq(), v, sent, s1, s.iter) if not (v[0] == 'piece' and sent[0] == 'sentinel') else \
+                            self.compare(ast.Is(), v, sent, s1, s.iter)
+                        for s2, stop in self.truth(eqv, s1, s.iter):
+                            if stop:
+                                done.append(s2)
+                            else:
+                                body += self.block(s.body, self.bind(s.target, v, s2, fr), fr)
+                    return body, done
+                out += self.loop([s0], step, s.orelse, fr)
+            elif t == 'tuple':
+                cur = [s0]
+                pending = []
+                for x in itv[1]:
+                    nxt = []
+                    for c in cur:
+                        for kind, s2, v in self.block(s.body, self.bind(s.target, x, c, fr), fr):
+                            if kind in ('next', 'continue'):
+                                nxt.append(s2)
+                            elif kind == 'break':
+                                pending.append(('next', s2, None))
+                            else:
+                                pending.append((kind, s2, v))
+                    cur = nxt
+                for c in cur:
+                    out += self.block(s.orelse, c, fr) if s.orelse else [('next', c, None)]
+                out += pending
+            else:
+                self.consume(itv, s0, s)
+
+                def step(h):
+                    return self.block(s.body, self.bind(s.target, UNKNOWN, h, fr), fr), [h]
+                out += self.loop([s0], step, s.orelse, fr)
+        return out
+
+    def try_stmt(self, s, st, fr):
+        catches = None
+        for h in s.handlers:
+            names = set()
+            if h.type is None:
+                names = {'StopIteration'}
+            else:
+                for n in ast.walk(h.type):
+                    if isinstance(n, ast.Name):
+                        names.add(n.id)
+            if names & {'StopIteration', 'Exception', 'BaseException'}:
+                catches = h
+                break
+        for h in s.handlers:
+            if h is not catches:
+                for n in ast.walk(h):
+                    if isinstance(n, ast.Attribute) and n.attr == 'next_cut':
+                        raise Unrecognised(f'next_cut inside an exception handler at line {h.lineno}')
+        sink = []
+        self.stop_sinks.append(sink)
+        try:
+            body = self.block(s.body, st, fr)
+        finally:
+            self.stop_sinks.pop()
+        out = []
+        for kind, s2, v in body:
+            if kind == 'next' and s.orelse:
+                out += self.block(s.orelse, s2, fr)
+            else:
+                out.append((kind, s2, v))
+        for s2 in sink:
+            if catches is None:
+                if s.finalbody:
+                    for kind, s3, v in self.block(s.finalbody, s2, fr):
+                        if kind == 'next':
+                            self.raise_stop(s3)
+                        else:
+                            out.append((kind, s3, v))
+                else:
+                    self.raise_stop(s2)
+            else:
+                if catches.name:
+                    s2 = self.bind_name(catches.name, UNKNOWN, s2, fr)
+                out += self.block(catches.body, s2, fr)
+        if s.finalbody:
+            fin = []
+            for kind, s2, v in out:
+                for k2, s3, v3 in self.block(s.finalbody, s2, fr):
+                    fin.append((kind, s3, v) if k2 == 'next' else (k2, s3, v3))
+            out = fin
+        return out
+
+    # ------------------------------------------------------------------------------------------- entry points
+    def run_function(self, fn, cls, params):
+        """execute `fn` with its parameters bound to `params` (name -> value); returns the outcomes"""
+        fid = ()
+        fr = self.frames[fid] = Frame(fid, fn, None, cls)
+        st = St()
+        a = fn.args
+        for p in a.posonlyargs + a.args + a.kwonlyargs:
+            st = st.set((fid, p.arg), params.get(p.arg, UNKNOWN))
+        return self.block(fn.body, st, fr)
+
+
+def import_path(stmt, alias):
+    """dotted name an imported local name stands for (`from operator import is_ as same` -> operator.is_)"""
+    if isinstance(stmt, ast.ImportFrom):
+        return ((stmt.module or '') + '.' + alias.name).lstrip('.')
+    return alias.name if alias.asname else alias.name.split('.')[0]
+
+
+def fr_cls(engine, fr):
+    f = fr
+    while f is not None:
+        if f.cls is not None:
+            return f.cls
+        f = f.parent
+    return None
+
+
+def depth_of(v):
+    if not isinstance(v, tuple):
+        return 0
+    return 1 + max([depth_of(x) for x in v] + [0]) if v and v[0] == 'callres' else max([depth_of(x) for x in v] + [0])
+
+
+def analyse_adapter(ctx, module=None):
+    """run the interpreter over gclmulchunker.__call__; returns (engine or None, why-not)"""
+    if module is None:
+        module = ast.parse((ctx.REPO / 'replicat' / 'utils' / 'adapters.py').read_text())
+    cls = next((n for n in ast.walk(module) if isinstance(n, ast.ClassDef) and n.name == 'gclmulchunker'), None)
+    call = next((n for n in cls.body if isinstance(n, ast.FunctionDef) and n.name == '__call__'), None) if cls is not None else None
+    if call is None or len(call.args.posonlyargs + call.args.args) < 2:
+        return None, 'gclmulchunker.__call__(self, <pieces>, …) not found', None
+    eng = Engine(ctx, module)
+    names = [p.arg for p in call.args.posonlyargs + call.args.args]
+    err = None
+    try:
+        for kind, st, v in eng.run_function(call, cls, {names[0]: SELF, names[1]: SRC}):
+            if kind == 'return' and v is not None and v[0] == 'genobj':
+                # `__call__` hands the work to a helper generator and returns it: the consumer runs it
+                eng.run_gen(v, st, lambda s, y: eng.do_yield(s, y, eng.frames[()], call), call)
+            elif kind == 'return' and v is not None and holds(v, ('piece', 'src')):
+                raise Unrecognised('the piece iterator / a piece is returned to the caller')
+    except Unrecognised as e:
+        err = str(e)
+    except RecursionError:
+        err = 'analysis recursion limit'
+    return eng, err, call
 
 
 def section(ctx):
-    asrc = (ctx.REPO / 'replicat' / 'utils' / 'adapters.py').read_text()
-    module = ast.parse(asrc)
-    call = ctx.find_func(module, 'gclmulchunker', '__call__')
+    eng, err, call = analyse_adapter(ctx)
     verdict = None
     why = ''
-    if call is None or len(call.args.args) < 2:
-        why = 'gclmulchunker.__call__(self, <pieces>, …) not found'
+    if eng is None:
+        why = err
     else:
-        flow = _Flow(ctx, module, call, call.args.args[1].arg)
-        try:
-            flow.block(call.body)
-            if flow.reads == 0:
-                why = 'no statement reads a piece obtained from the iterator'
-            elif flow.latest == 0:
-                why = 'the piece iterator is never advanced'
-            else:
-                verdict = not flow.stale_reads
-                if flow.stale_reads:
-                    why = '; '.join(list(dict.fromkeys(flow.stale_reads))[:3])
-        except _Unrecognised as e:
-            why = f'not recognised: {e}'
-            if flow.stale_reads:        # a definite read-after-pull was already seen
+        for name, node in eng.inlined.items():
+            ctx.fp(f'adapters.{name}', node)
+        stale = list(dict.fromkeys(eng.stale))
+        if err is not None:
+            why = f'not recognised: {err}'
+            if stale:                   # a definite read-after-pull was already seen
                 verdict = False
-                why = '; '.join(list(dict.fromkeys(flow.stale_reads))[:3]) + f' (analysis stopped: {e})'
+                why = '; '.join(stale[:3]) + f' (analysis stopped: {err})'
+        elif eng.reads == 0:
+            why = 'no statement reads a piece obtained from the iterator'
+        elif eng.pulls == 0:
+            why = 'the piece iterator is never advanced'
+        else:
+            verdict = not stale
+            why = '; '.join(stale[:3])
     if verdict is None:
         ctx.emit('opaque adapterCopiesBeforePull : Bool')
         ctx.notes['adapter.handover'] = why
